@@ -22,7 +22,7 @@ REAL = ["lian.common_structs.PathManager", "PathTrie", "TrieNode", "CallPath", "
 STUBS = []
 ASSUMPTIONS = ["the empty path is not generated (the property does not say whether () is a path)",
                "call-site validity = no negative caller/stmt/callee id (CallPath.has_any_negative)"]
-PROBES = ["invivo_debug_run", "invivo_persisted_readbacks_checked", "invivo_history_run_ok", "invivo_history_ws_symlink_sub", "invivo_p3_analyses", "invivo_second_analysis_same_process", "invivo_persisted_sets_checked", "invivo_adds", "invivo_prefix_evictions", "invivo_prefix_rejections", "prefix_eviction", "reject_prefix", "reject_dup", "reject_negative", "reject_badtype",
+PROBES = ["persist_bare_file_name", "invivo_debug_run", "invivo_persisted_readbacks_checked", "invivo_history_run_ok", "invivo_history_ws_symlink_sub", "invivo_p3_analyses", "invivo_second_analysis_same_process", "invivo_persisted_sets_checked", "invivo_adds", "invivo_prefix_evictions", "invivo_prefix_rejections", "prefix_eviction", "reject_prefix", "reject_dup", "reject_negative", "reject_badtype",
           "add_after_remove_same", "add_after_remove_prefix", "add_after_evict_then_remove",
           "remove_hit", "remove_miss", "branching", "numpy_ids", "persist_restore"]
 # the same check again, smaller, in interpreters started with assertions stripped (python -O / PYTHONOPTIMIZE=1)
@@ -125,7 +125,8 @@ def gen_knobs(rng, tier):
         "big_ids": rng.random() < 0.3,          # ids of large workspaces (extern ids start above 10^8; int64 arithmetic wraps near 9.2e18)
         "p_numpy": rng.choice([0.0, 0.0, 0.3]),  # call sites whose ids are numpy integers (ids read from tables are)
         "persist_max_rows": rng.choice([1, 2, 3, 400000, 400000]),
-        "tmp_fs": rng.choice(["scratch", "other"]),      # the temporary directory on the workspace's file system, or on another one
+        "tmp_fs": rng.choice(["scratch", "other"]),
+        "persist_bare_name": rng.random() < 0.3,      # the temporary directory on the workspace's file system, or on another one
         "p_steps": rng.choice([0.0, 0.3, 0.6]),    # path objects built call by call (as the analysis does) instead of from a tuple
         "w_persist": rng.choice([0, 0, 1, 2]),      # save the stored paths through the call-path loader, export, restore, re-seed a new store
     }
@@ -383,14 +384,25 @@ def execute(trace):
                     if persist_dir is None:
                         persist_dir = tempfile.mkdtemp(prefix="c19-", dir=scratch_root())
                     f_ = os.path.join(persist_dir, "call_path")
+                    cwd0 = None
+                    if k.get("persist_bare_name"):
+                        # the loader is given a bare file name, relative to the current directory
+                        cwd0 = os.getcwd()
+                        os.chdir(persist_dir)
+                        f_ = "call_path"
+                        hit("persist_bare_file_name")
                     ld = persist_loader[0] or L.CallPathLoader(f_)
                     persist_loader[0] = ld
                     import io, contextlib
-                    with contextlib.redirect_stdout(io.StringIO()), contextlib.redirect_stderr(io.StringIO()):
-                        ld.save(set(pm.paths))
-                        ld.export()
-                        ld2 = L.CallPathLoader(f_)
-                        ld2.restore()
+                    try:
+                        with contextlib.redirect_stdout(io.StringIO()), contextlib.redirect_stderr(io.StringIO()):
+                            ld.save(set(pm.paths))
+                            ld.export()
+                            ld2 = L.CallPathLoader(f_)
+                            ld2.restore()
+                    finally:
+                        if cwd0 is not None:
+                            os.chdir(cwd0)
                     pm = _cs.PathManager()
                     restored = sorted(ld2.all_paths, key=lambda cp: (len(cp.path), [tuple(int(x) for x in cs_.to_tuple()) for cs_ in cp.path]))
                     for cp in restored:
